@@ -21,7 +21,7 @@ ASSUMPTIONS = ['counts and HL/LX numbers that Python int() accepts but are not c
 REQUIRED_COUNTERS = ['proper', 'improper', 'exp:isa:025', 'exp:gs:6', 'exp:st:23', 'exp:st:3', 'exp:st:4', 'exp:gs:4', 'exp:gs:5', 'exp:isa:001',
                      'exp:isa:021', 'exp:eof:st:2', 'exp:eof:gs:3', 'exp:eof:isa:023', 'exp:seg:HL1', 'exp:seg:HL2', 'exp:seg:LX',
                      'proper-clean', 'segments-fed']
-MIN_CASES = {'quick': 15000, 'thorough': 200000}
+MIN_CASES = {'quick': 15000, 'thorough': 2000000}
 
 CTL = {'isa': ['000000001', '000000002', '000000003'], 'gs': ['1', '2', '3'], 'st': ['0001', '0002', '0003']}
 BODY = [('NM1', ['85', '2', 'X']), ('REF', ['87', '1']), ('DTP', ['472', 'D8', '20040407']), ('N3', ['1 MAIN']), ('SV1', ['HC:99213', '40', 'UN', '1'])]
@@ -224,7 +224,7 @@ DIRECTED = [
 
 
 def run(ctx):
-    total = 30000 if ctx.quick else 500000
+    total = 30000 if ctx.quick else 4000000
     per = total // ctx.nshards
     sigs = set()
     samples = 0
